@@ -711,26 +711,46 @@ func c12Run(e *Env) {
 	if ok {
 		ok = smcAfter(w, s)
 	}
-	w.teardown()
+	keepFirst := ok && redial && !w.watchdog && e.T.Chance(1, 2)
+	if !keepFirst {
+		w.teardown()
+	}
 	if e.Failed() || !redial {
+		if keepFirst {
+			w.teardown()
+		}
 		return
 	}
-	// the same Client dials again (reconnect, or the next peer after a refusal)
+	// the same Client dials again (reconnect, another peer, or a second connection
+	// while the first one stays in use)
 	e.Probe("redial")
-	e.Act("redial", "first dial ok=%v", ok)
+	e.Act("redial", "first dial ok=%v kept=%v", ok, keepFirst)
 	w2 := w.redial()
-	defer w2.teardown()
 	s2 := hsScript{answerCER: 1, ceaKind: "success", delayClass: "quick", delay: time.Duration(e.T.Draw(3)) * w.I / 4}
-	if e.T.Chance(1, 4) {
+	if e.T.Chance(1, 3) {
 		s2.answerCER = 0 // silence: the second dial must time out like a first one would
 	}
 	smcHandshake(w2, s2)
+	w2.teardown()
+	if keepFirst && !e.Failed() {
+		// the first connection must be unaffected by what happened to the second dial
+		e.Probe("first-connection-kept-across-redial")
+		w.start = w2.start // (clock bookkeeping only: "now" is relative to a start instant)
+		smcAfter(w, hsScript{extras: []string{"dup-success", "failed"}, nAppAfter: 1})
+	}
+	if keepFirst {
+		w.teardown()
+	}
 }
 
 // redial returns a world for a second connection dialled by the same Client.
 func (w *smcWorld) redial() *smcWorld {
 	w2 := &smcWorld{e: w.e, cli: w.cli, mach: w.mach, R: w.R, I: w.I, W: w.W, watchdog: w.watchdog, cfgAddrs: w.cfgAddrs, advertised: w.advertised}
-	w2.sc = newSimConn(w.e, "cli2", w.sc.LocalAddr(), w.sc.RemoteAddr())
+	la := drawAddr(w.e.T, 50001)
+	if la.IP.Equal(w.sc.LocalAddr().(*net.TCPAddr).IP) {
+		la = &net.TCPAddr{IP: net.IPv4(10, 77, 0, 9), Port: 50001}
+	}
+	w2.sc = newSimConn(w.e, "cli2", la, w.sc.RemoteAddr())
 	w2.start = time.Now()
 	w2.shared = w
 	return w2
